@@ -163,7 +163,7 @@ Proof.
   destruct (fst (decide_mode (c_sbo c) (c_flags c))) eqn:Hm.
   - rewrite andb_false_r. specialize (Hrow eq_refl).
     destruct (b_items b) as [|q [|? ?]]; try discriminate. destruct Hp as [->|[]]. reflexivity.
-  - destruct Hg as [Hg|Hu]; [discriminate|]. rewrite andb_true_r. destruct (c_named c).
+  - destruct Hg as [Hg|Hu]; [rewrite Hm in Hg; discriminate|]. rewrite andb_true_r. destruct (c_named c).
     + destruct ps as [|q r]; [destruct Hpin|]. cbn. f_equal. apply Hu; [left; reflexivity|exact Hpin].
     + destruct (b_items b) as [|q r] eqn:E; [congruence|]. cbn. f_equal. apply Hu; [|exact Hpin].
       rewrite <- Hcat. apply in_concat. exists (q :: r). split; [rewrite <- E; apply in_map; exact Hb|left; reflexivity].
